@@ -48,7 +48,7 @@ pub enum Op {
 
 fn gen_cfg(_prop: &str, _tier: Tier, run_seed: u64) -> Value {
     let mut r = Rng::sub(run_seed, "cfg");
-    json!({ "kind": *r.pick(&["ctpk", "bch", "cgfx", "tpl"]) })
+    json!({ "kind": *r.pick(&["ctpk", "bch", "cgfx", "tpl"]), "disk": r.chance(1, 3) })
 }
 
 const NAMES: &[&str] = &["tex", "a", "名前", "face_01", "ｱｲ", "", "x y.png", "テクスチャ"];
@@ -96,6 +96,22 @@ struct World {
     cur: Vec<u8>,
     texs: Vec<Tex>,
     ends: Vec<usize>,
+    /// the container also goes through the layered filesystem on the simulated disk
+    fs: Option<(mila::LayeredFilesystem, std::path::PathBuf)>,
+    tick: u64,
+}
+
+/// the file as a torn write left it on the simulated disk, read by the typed helper
+fn read_via_fs(w: &World, kind: &str, bytes: &[u8]) -> Option<Result<Result<usize, String>, PanicInfo>> {
+    let (fs, dir) = w.fs.as_ref()?;
+    let name = "tex.bin";
+    std::fs::write(dir.join(name), bytes).ok()?;
+    Some(guarded(|| match kind {
+        "ctpk" => fs.read_ctpk_textures(name, false).map(|m| m.len()).map_err(|e| e.to_string()),
+        "bch" => fs.read_bch_textures(name, false).map(|m| m.len()).map_err(|e| e.to_string()),
+        "cgfx" => fs.read_cgfx_textures(name, false).map(|m| m.len()).map_err(|e| e.to_string()),
+        _ => fs.read_tpl_textures(name, false).map(|m| m.len()).map_err(|e| e.to_string()),
+    }))
 }
 
 fn refine(ctx: &mut RunCtx, kind: &str, bytes: &[u8], must_err: bool) {
@@ -224,6 +240,26 @@ fn exec(ctx: &mut RunCtx, w: &mut World, op: &Op) -> Step<()> {
                     }
                 }
             }
+            if w.fs.is_some() {
+                ctx.probe("cases_evaluated");
+                let distinct: std::collections::BTreeSet<&str> = w.texs.iter().map(|t| if kind == "tpl" { "" } else { t.name.as_str() }).collect();
+                match read_via_fs(w, &kind, &w.cur) {
+                    Some(Ok(Ok(n))) => {
+                        let want = if kind == "tpl" { w.texs.len() } else { distinct.len() };
+                        if n != want {
+                            return ctx.violation("returns_packed_textures", format!("fs.{}|wrong_count", kind), format!("fs.read_{}_textures returned {} textures, expected {}", kind, n, want));
+                        }
+                        ctx.probe("complete_container_through_filesystem");
+                    }
+                    Some(Ok(Err(e))) => {
+                        return ctx.violation("returns_packed_textures", format!("fs.{}|rejected_conforming_container", kind), format!("fs.read_{}_textures failed on a conforming container: {}", kind, e));
+                    }
+                    Some(Err(p)) => {
+                        return ctx.violation("no_panic", format!("panic|fs.{}|{}|{}", kind, p.file.rsplit('/').next().unwrap_or(""), strip_digits(&p.message)), format!("fs.read_{}_textures panicked on a conforming container", kind));
+                    }
+                    None => {}
+                }
+            }
             ctx.probe(match w.texs.len() {
                 0 => "container_with_0_textures",
                 1 => "container_with_1_texture",
@@ -240,6 +276,29 @@ fn exec(ctx: &mut RunCtx, w: &mut World, op: &Op) -> Step<()> {
             let mut k = 0;
             while k < b.len() {
                 prefix_case(ctx, &kind, &b[..k], k < max_end)?;
+                w.tick += 1;
+                if w.fs.is_some() && w.tick % 48 == 0 {
+                    // the same torn file, as the typed filesystem helper sees it
+                    ctx.probe("cases_evaluated");
+                    ctx.probe("prefix_read_through_filesystem");
+                    match read_via_fs(w, &kind, &b[..k]) {
+                        Some(Err(p)) => {
+                            return ctx.violation(
+                                "no_panic",
+                                format!("panic|fs.{}|{}|{}", kind, p.file.rsplit('/').next().unwrap_or(""), strip_digits(&p.message)),
+                                format!("fs.read_{}_textures panicked at {}:{}: {} on a {}-byte prefix", kind, p.file, p.line, p.message, k),
+                            )
+                        }
+                        Some(Ok(Ok(n))) if k < max_end => {
+                            return ctx.violation(
+                                "truncated_payload_is_an_error",
+                                format!("fs.{}|accepted_truncated_payload", kind),
+                                format!("fs.read_{}_textures returned {} textures from a {}-byte prefix that cuts into a payload", kind, n, k),
+                            )
+                        }
+                        _ => {}
+                    }
+                }
                 k += step;
             }
             ctx.fault("torn_write_prefix");
@@ -296,7 +355,16 @@ fn exec(ctx: &mut RunCtx, w: &mut World, op: &Op) -> Step<()> {
 fn run(cfg: &Value, ctx: &mut RunCtx) -> Step<()> {
     let kind = cfg["kind"].as_str().unwrap_or("ctpk").to_string();
     ctx.max_ops = 16;
-    let mut w = World { kind: kind.clone(), cur: Vec::new(), texs: Vec::new(), ends: Vec::new() };
+    let mut w = World { kind: kind.clone(), cur: Vec::new(), texs: Vec::new(), ends: Vec::new(), fs: None, tick: 0 };
+    let dir = ctx.scratch.join("tex");
+    if cfg["disk"].as_bool().unwrap_or(false) {
+        let _ = std::fs::remove_dir_all(&dir);
+        std::fs::create_dir_all(&dir).map_err(|e| Stop::Harness(format!("scratch: {}", e)))?;
+        let d = dir.to_string_lossy().to_string();
+        if let Ok(Ok(fs)) = guarded(|| mila::LayeredFilesystem::new(vec![d], mila::Language::EnglishNA, mila::Game::FE14)) {
+            w.fs = Some((fs, dir.clone()));
+        }
+    }
     let mut planned: Vec<Op> = Vec::new();
     if !ctx.is_replay() {
         let mut r = Rng::sub(ctx.run_seed, "ops");
@@ -318,8 +386,14 @@ fn run(cfg: &Value, ctx: &mut RunCtx) -> Step<()> {
             Some(o) => o,
             None => break,
         };
-        exec(ctx, &mut w, &op)?;
+        if let Err(e) = exec(ctx, &mut w, &op) {
+            drop(w);
+            let _ = std::fs::remove_dir_all(&dir);
+            return Err(e);
+        }
     }
+    drop(w);
+    let _ = std::fs::remove_dir_all(&dir);
     ctx.nontrivial = true;
     Ok(())
 }
